@@ -1,0 +1,39 @@
+//go:build verif
+
+// Contracts for the describe surface (property C09, reduced core). Comment-only.
+
+package vgirpc
+
+// buildDescribeBatch: the method names are sorted before anything is rendered; every name
+// contributes exactly one row to each column and one entry to each hash input, in the same
+// order (the parallel snapshots never get out of step); each row's schema bytes are the
+// serialization of that method's registered parameter / output-or-result / header schema; the
+// hash is computed over exactly those snapshots and the protocol name; the batch has one row
+// per registered name.
+//
+//@ func (*Server).buildDescribeBatch
+//@   property C09
+//@   pathflag sorted
+//@   at call sort.Strings assert [sortnames] arg0 == names
+//@   at call sort.Strings mark sorted
+//@   loop 0 invariant sorted && len(methodTypeStrs) == rangeindex + 1 && len(hasReturns) == rangeindex + 1 && len(hasHeaders) == rangeindex + 1 &&
+//@       len(isExchanges) == rangeindex + 1 && len(paramsSchemaIPC) == rangeindex + 1 && len(resultSchemaIPC) == rangeindex + 1 && len(headerSchemaIPC) == rangeindex + 1
+//@   at call (*array.StringBuilder).Append#1 assert [rowname] arg1 == name && sorted
+//@   at call serializeSchema#1 assert [params] arg0 == info.ParamsSchema
+//@   at call serializeSchema#2 assert [output] arg0 == info.OutputSchema && info.OutputSchema != nil
+//@   at call serializeSchema#3 assert [result] arg0 == info.ResultSchema && info.OutputSchema == nil
+//@   at call serializeSchema#4 assert [header] arg0 == info.HeaderSchema && info.HasHeader
+//@   at call (*array.BinaryBuilder).Append#1 assert [paramsrow] arg1 == paramsBytes && arg0 == paramsSchemaBuilder
+//@   at call (*array.BinaryBuilder).Append#2 assert [resultrow] arg1 == resultBytes && arg0 == resultSchemaBuilder
+//@   at call (*array.BinaryBuilder).Append#3 assert [headerrow] arg1 == headerBytes && arg0 == headerSchemaBuilder
+//@   at call computeProtocolHash assert [hashinput] arg0 == protocolName && arg1 == names && arg2 == methodTypeStrs && arg3 == hasReturns && arg4 == hasHeaders && arg5 == isExchanges &&
+//@       arg6 == paramsSchemaIPC && arg7 == resultSchemaIPC && arg8 == headerSchemaIPC
+//@   at call array.NewRecordBatch assert [rows] arg2 == len(names) && arg0 == describeSchema
+
+// computeProtocolHash reads row i of every input for each name: the inputs are parallel.
+//
+//@ func computeProtocolHash
+//@   property C09
+//@   requires len(methodTypes) == len(names) && len(hasReturns) == len(names) && len(hasHeaders) == len(names) && len(isExchanges) == len(names) &&
+//@       len(paramsIPC) == len(names) && len(resultIPC) == len(names) && len(headerIPC) == len(names)
+//@   nopanic(index)
